@@ -266,9 +266,10 @@ pub fn gen_program(rng: &mut Rng, idx: usize) -> Program {
       }
       13 => {
         let l = gen_lit(rng);
-        let (pre, kind) = match rng.below(3) {
+        let (pre, kind) = match rng.below(4) {
           0 => ("import", "importEquals"),
           1 => ("export import", "exportEquals"),
+          2 => ("export import type", "importType"),
           _ => ("import type", "importType"),
         };
         body.push_str(&format!("{} ie{} = require({});\n", pre, i, l.written));
